@@ -52,6 +52,11 @@ def rule_words():
     return _WORDS
 
 
+def _repo_root():
+    from . import build
+    return os.path.join(build.REPO, '')
+
+
 MAX_BLOCKS = 16
 MAX_ROUNDS = 6
 
@@ -81,6 +86,17 @@ def _has(x, pred):
 def transparent(caller, callee, words):
     if callee is None or callee.pattern or callee.key == caller.key or not callee.blocks:
         return False
+    if callee.kind == 'lambda':
+        # a closure defined in the caller and called there is a part of the caller
+        if callee.rec.get('parent_fn') != caller.key or len(callee.blocks) > MAX_BLOCKS:
+            return False
+        for b in callee.blocks.values():
+            if b.get('label'):
+                return False
+            for e in b['events']:
+                if 'try' in e or e.get('in_handler'):
+                    return False
+        return True
     if callee.kind not in ('method', 'free') or callee.short.startswith('operator'):
         return False
     if callee.rec.get('virtual'):
@@ -169,18 +185,21 @@ def inline_one(caller, bid, idx, callee, serial):
             nm = '%s__in%d' % (prm.get('name') or 'arg', serial)
             pre_events.append({'ev': 'decl', 'loc': call.get('loc', ''), 'vars': [{'did': nd, 'name': nm, 't': prm.get('t', ''), 'init': a}]})
             bind[i] = {'k': 'local', 'did': nd, 'name': nm, 't': prm.get('t', '')}
-    recv = call.get('recv')
+    recv = call.get('recv') if callee.kind != 'lambda' else None     # `this` inside a closure is the enclosing object
     r0 = recv
     while isinstance(r0, dict) and r0.get('k') in ('cast', 'paren') and isinstance(r0.get('e'), dict):
         r0 = r0['e']
     if isinstance(r0, dict) and (r0.get('k') == 'this' or (r0.get('k') == 'un' and r0.get('op') == '*' and isinstance(r0.get('e'), dict) and r0['e'].get('k') == 'this')):
         recv = None         # called on the caller's own object: `this` stays `this`
 
+    # the callee's own locals are renamed apart; what a closure captured from the caller keeps its identity
+    own_dids = {v.get('did') for b in callee.blocks.values() for e in b['events'] if e['ev'] == 'decl' for v in e.get('vars', [])}
+
     def rewrite(d):
         k = d.get('k')
         if k == 'param' and d.get('i') in bind and d.get('did') in {p.get('did') for p in callee.params}:
             return bind[d['i']]
-        if k == 'local' and isinstance(d.get('did'), int):
+        if k == 'local' and isinstance(d.get('did'), int) and d['did'] in own_dids:
             return dict(d, did=d['did'] + did_off)
         if recv is not None:
             if k == 'un' and d.get('op') == '*' and isinstance(d.get('e'), dict) and d['e'].get('k') == 'un' and d['e'].get('op') == '&' \
@@ -242,7 +261,7 @@ def inline_one(caller, bid, idx, callee, serial):
                     e2[k] = _walk_terms(v, rewrite)
                 else:
                     e2[k] = v
-            if e2['ev'] == 'dtor' and isinstance(e2.get('did'), int):
+            if e2['ev'] == 'dtor' and isinstance(e2.get('did'), int) and e2['did'] in own_dids:
                 e2['did'] = e2['did'] + did_off
             if e2['ev'] == 'return':
                 if void or e2.get('e') is None:
@@ -324,7 +343,8 @@ def inline_helpers(db, log=None):
     names = set()
     for key in list(db.fns):
         f = db.fns[key]
-        if f.pattern or not f.name.startswith('foonathan::memory') or not f.blocks:
+        # library functions: by namespace, or (file-local helpers in unnamed namespaces) by where they are defined
+        if f.pattern or not f.blocks or not (f.name.startswith('foonathan::memory') or str(f.loc).startswith(_repo_root())):
             continue
         serial = len(f.rec.get('inlined', []))
         rounds = 0
@@ -425,6 +445,9 @@ def self_test():
         oo2 = by.get('outer_out')
         if oo2 is None or not any(w.startswith('local:v') for w in writes(oo2)):
             probs.append('a reference out-parameter of an inlined helper does not assign the caller\'s variable (writes %s)' % (sorted(writes(oo2)) if oo2 else None))
+        oc = by.get('outer_closure')
+        if oc is None or not any(w.startswith('local:acc') for w in writes(oc)) or 'operator()' in calls(oc):
+            probs.append('a closure called in the function that defines it was not spliced in (calls %s, writes %s)' % (sorted(calls(oc)) if oc else None, sorted(writes(oc)) if oc else None))
         if BUMP in by or RESET in by:
             probs.append('fully inlined helpers are still functions of their own')
     if probs:
